@@ -4,7 +4,7 @@ use std::sync::{Arc, Mutex, RwLock};
 
 use async_lsp::lsp_types::{
     notification, request, CompletionOptions, CompletionParams, CompletionResponse,
-    DidChangeTextDocumentParams, DidOpenTextDocumentParams, DocumentLink, DocumentLinkOptions,
+    DidChangeTextDocumentParams, DidCloseTextDocumentParams, DidOpenTextDocumentParams, DocumentLink, DocumentLinkOptions,
     DocumentLinkParams, DocumentSymbolParams, DocumentSymbolResponse, FoldingRange,
     FoldingRangeParams, FoldingRangeProviderCapability, GotoDefinitionParams,
     GotoDefinitionResponse, Hover, HoverParams, HoverProviderCapability, InitializeParams,
@@ -43,7 +43,7 @@ impl Server {
             .notification::<notification::DidOpenTextDocument>(Self::did_open)
             .notification::<notification::DidChangeTextDocument>(Self::did_change)
             .notification::<notification::DidSaveTextDocument>(|_, _| ControlFlow::Continue(()))
-            .notification::<notification::DidCloseTextDocument>(|_, _| ControlFlow::Continue(()))
+            .notification::<notification::DidCloseTextDocument>(Self::did_close)
             .request::<request::DocumentSymbolRequest, _>(Self::document_symbol)
             .request::<request::GotoDefinition, _>(Self::definition)
             .request::<request::References, _>(Self::references)
@@ -279,6 +279,13 @@ impl LanguageServer for Server {
         ControlFlow::Continue(())
     }
 
+    fn did_close(&mut self, params: DidCloseTextDocumentParams) -> Self::NotifyResult {
+        // the disk is the truth again
+        let path = UrlExt::to_file_path(&params.text_document.uri);
+        self.vfs.write().unwrap().remove_open_document(&path);
+        ControlFlow::Continue(())
+    }
+
     fn did_change(&mut self, params: DidChangeTextDocumentParams) -> Self::NotifyResult {
         #[cfg(feature = "verif")]
         crate::verif::point("notify.begin");
@@ -297,7 +304,13 @@ impl Server {
         let path = UrlExt::to_file_path(uri);
         #[cfg(feature = "verif")]
         crate::verif::point("sfc.vfs_write_1.before");
-        let file_id = self.vfs.write().unwrap().assign_or_get_file_id(path);
+        let file_id = {
+            let mut vfs = self.vfs.write().unwrap();
+            // the editor's text is the truth for an open document, also when the document is
+            // reached through an include of another root later
+            vfs.set_open_document(path.clone(), text.to_string());
+            vfs.assign_or_get_file_id(path)
+        };
         #[cfg(feature = "verif")]
         crate::verif::point("sfc.db_write.before");
         let text = Arc::from(text);
